@@ -130,6 +130,28 @@ CHECKS = [
         "Trusted: reference AVM, O2. Positions 0-3; 'cleared' only for relations stated in the configuration and single-field detectors.",
         "explicit-state exploration of the product of the configured contracts' concrete executions over a shared transaction group, per configuration of an exhaustively enumerated configuration space",
         "DESIGN.md 3/C13"),
+    chk("C14", "model_checking",
+        "On the real code, with every history case run in a child forked from a pristine worker: all sequences of up to 3 (thorough: 4) "
+        "contracts from a pool built to collide on shared state (universal-set lists, lru caches, class-level key lists, shared "
+        "subroutine blocks) analysed in one process without any cache clearing by the harness; all permutations of every 3-subset of "
+        "detectors containing group-size-check, all ordered pairs, every detector twice; all permutations (<= 5 elements) / rotations "
+        "and reversals of the initial forward and backward worklists and of called_subroutines (installed by wrapping, no source change); "
+        "PYTHONHASHSEED 0-3 and VERIF_SEED in fresh interpreters. Oracle: graph, all contexts (incl. sub-contexts), parse output, "
+        "ordered paths and JSON bytes of every detector equal those of the contract analysed alone in a fresh interpreter; contexts "
+        "unchanged after each detector.",
+        "Hash seeds are a sample (declared); the iteration orders a seed can induce are covered exhaustively by the permutations.",
+        "exhaustive enumeration of operation histories, detector orders and worklist/iteration-order schedules on the real implementation with a differential oracle",
+        "DESIGN.md 3/C14"),
+    chk("C15", "exploration",
+        "G2 base programs over a mixed alphabet x nine text rewrites (rename labels, comments/blank lines/indentation, hex and octal "
+        "integers, named<->numeric constants next to TypeEnum/OnCompletion, int->pushint, int->entry-block intcblock + intc/intc_k, "
+        "stack-neutral padding at statement boundaries), every ordered pair of them, every placement and order of the subroutine bodies "
+        "and its composition with each text rewrite: contexts (per instruction line, incl. selected sub-contexts) and the path sets of "
+        "all nine detectors must be equal modulo the rewrite's line map; each rewrite is itself validated as behaviour-preserving by "
+        "the reference AVM.",
+        "Trusted: rewrites in mc/gen/rewrites.py (each validated with E1 on every program it is applied to).",
+        "metamorphic relation checked over an exhaustively enumerated set of (program, rewrite composition) pairs",
+        "DESIGN.md 3/C15"),
     chk("C16", "exploration",
         "Every opcode of the independent v1-v8 table x every field of its group x immediate spellings (uint64 in decimal/hex/octal up to "
         "2^64-1, named constants, 19 byte-string spellings: hex, base64/base32 in four syntaxes, quoted strings with spaces, //, escapes; "
@@ -150,6 +172,17 @@ CHECKS = [
         "The in-process call is taken as the CLI (a slice is compared with real subprocesses). Filter: bodies entered only through callsub.",
         "bounded-exhaustive enumeration of (program layout x subcommand) executions of the real entry point; oracle = no internal error",
         "DESIGN.md 3/C17"),
+    chk("C18", "model_checking",
+        "G1 raw layouts and detector-space G2 programs: the files written by the cfg, subroutine-cfg and transaction-context printers and "
+        "by generate_output for every reported path of the nine detectors, and the JSON envelope produced by the CLI's handle_output, "
+        "are read back by small independent DOT/JSON readers: nodes = retained blocks with their 'line. text' rows, edges = the global "
+        "graph of the reference (intra edges, callsub -> entry, retsub -> return point, no callsub -> return-point edge), one call box "
+        "per call site, RED nodes = exactly the path's blocks, GroupIndex/GroupSize annotations decode to the computed sets, count = "
+        "listed paths, success <=> no error, and filter_paths removes exactly the paths whose short notation re.search-matches, for "
+        "patterns derived from every reported path.",
+        "Trusted: reference graph and the readers in mc/checks/c18.py. The call-graph export is covered by C05.",
+        "output conformance over an exhaustively enumerated program space: every exported artefact parsed back and compared with the reference model",
+        "DESIGN.md 3/C18"),
     chk("C19", "exploration",
         "Every opcode x field of the independent v1-v8 table as a one-instruction program under #pragma version 1-8 and without pragma: the "
         "'not supported' diagnostics (instruction and field, with the introduction version they print) must appear exactly when the table "
@@ -169,7 +202,7 @@ CHECKS = [
         "DESIGN.md 3/C20"),
 ]
 
-_PENDING = "check not built yet in this session (work in progress; see DESIGN.md section 3 for the planned check)"
+_PENDING = "check not built yet"
 NOT_APPLICABLE = [
     {"property_id": f"C{i:02d}", "reason": _PENDING}
     for i in range(1, 21) if f"C{i:02d}" not in {c["property_id"] for c in CHECKS}
